@@ -280,7 +280,7 @@ Prim(n, a, hp) ==
                 [] n = "char-ci<=?" -> Chain(a, LAMBDA x, y : Foldcase(x.v) <= Foldcase(y.v))
                 [] n = "char-ci>=?" -> Chain(a, LAMBDA x, y : Foldcase(x.v) >= Foldcase(y.v)))
   [] n \in {"char-upcase", "char-downcase", "char-foldcase"} ->
-       IF a[1].t # "char" THEN Err("type") ELSE IF ~CaseKnown(a[1].v) THEN Oom
+       IF a[1].t # "char" THEN Err("type") ELSE IF ~CharCaseKnown(a[1].v) THEN Oom
        ELSE V(CharV(CASE n = "char-upcase" -> Upcase(a[1].v)
                       [] n = "char-downcase" -> Downcase(a[1].v)
                       [] n = "char-foldcase" -> Foldcase(a[1].v)))
